@@ -390,6 +390,8 @@ FINDING_OF_SHAPE = {
     'negzero-neg': 'F29',
     'negzero-mul': 'F29',
     'prog-negative-zero-from-exact-neg-or-mul': 'F29',
+    # exact_select: `min(x, y)` takes y's pos_bound although y may be +inf (then the result is x); same for max / -inf
+    'prog-select-bound-from-operand-that-may-be-inf': 'C14-select',
 }
 
 def viol(rep, shape, what, d):
@@ -627,6 +629,8 @@ def run(rep, tier, seed):
     try:
         import c14prog
         c14prog.stage_programs(rep, R, tier, sys.modules[__name__])
+        import c14refine
+        c14refine.stage_refinement(rep, R, tier, sys.modules[__name__])
     except ImportError:
         rep.notes.append('program-level stage (c14prog.py) not present')
     rep.cov['rule'] = (
@@ -637,7 +641,7 @@ def run(rep, tier, seed):
         f'(multiples of 2^{ELO} up to magnitude {MAG}, both zeros, specials) with a Python reading of the docstring; real outputs must contain '
         'exact results; a<=b => inclusion on all enumerated members; round_is_identity => ctx.round changes no member; '
         'Lean executable membership (proved equal to the Spec: member_iff_gamma) cross-checked against the Python reading; '
-        '(c) program stage: see program_rule; at most 2 replay records per violation shape (all counted in distribution), '
+        '(c) program stage: see program_rule; (c2) branch refinement stage: see refine_rule; at most 2 replay records per violation shape (all counted in distribution), '
         'for a program run only the first missed value in execution order is reported; '
         'distinct = distinct driver lines + distinct (program, site, value) observations')
     rep.assumptions += [
